@@ -19,6 +19,8 @@ import (
 	"errors"
 	"fmt"
 	"io"
+	"net/http"
+	"net/url"
 	"regexp"
 	"sort"
 	"strconv"
@@ -964,6 +966,212 @@ func execSeek(id string, s *SeekCase) {
 	run.Case(id, line, strings.Join(parts, " | "))
 }
 
+// ---------- request grammar: formal `allowed` vs the endpoint table ----------
+
+type GramCase struct {
+	M, Repo, EK, Arg string
+	ID              int64
+	Digest, MD, MF  *string
+	CType           *string
+	CLen            int64 // -1 = absent
+	Range           *[2]int64
+	Body            string
+}
+
+func optTok(p *string) string {
+	if p == nil {
+		return "-"
+	}
+	if *p == "" {
+		return "~"
+	}
+	return common.Hex(*p)
+}
+
+func (g *GramCase) Line() string {
+	arg := common.Hex(g.Arg)
+	if g.EK == "sess" {
+		arg = strconv.FormatInt(g.ID, 10)
+	}
+	if g.EK == "up" {
+		arg = "-"
+	}
+	cl, ra, rb := "-", "-", "-"
+	if g.CLen >= 0 {
+		cl = strconv.FormatInt(g.CLen, 10)
+	}
+	if g.Range != nil {
+		ra, rb = strconv.FormatInt(g.Range[0], 10), strconv.FormatInt(g.Range[1], 10)
+	}
+	md, mf := "-", "-"
+	if g.MD != nil {
+		md, mf = optTok(g.MD), optTok(g.MF)
+	}
+	return strings.Join([]string{"A", g.M, common.Hex(g.Repo), g.EK, arg, optTok(g.Digest), md, mf, optTok(g.CType), cl, ra, rb,
+		common.Hex(g.Body)}, " ")
+}
+
+func ParseGram(line string) (*GramCase, error) {
+	t := strings.Fields(line)
+	if len(t) != 13 || t[0] != "A" {
+		return nil, errors.New("not a grammar case")
+	}
+	opt := func(s string) *string {
+		if s == "-" {
+			return nil
+		}
+		v := ""
+		if s != "~" {
+			v = common.UnHex(s)
+		}
+		return &v
+	}
+	g := &GramCase{M: t[1], Repo: common.UnHex(t[2]), EK: t[3], CLen: -1, Body: common.UnHex(t[12])}
+	switch g.EK {
+	case "sess":
+		g.ID, _ = strconv.ParseInt(t[4], 10, 64)
+	case "up":
+	default:
+		g.Arg = common.UnHex(t[4])
+	}
+	g.Digest = opt(t[5])
+	if t[6] != "-" {
+		g.MD, g.MF = opt(t[6]), opt(t[7])
+		if g.MF == nil {
+			e := ""
+			g.MF = &e
+		}
+	}
+	g.CType = opt(t[8])
+	if t[9] != "-" {
+		g.CLen, _ = strconv.ParseInt(t[9], 10, 64)
+	}
+	if t[10] != "-" {
+		a, _ := strconv.ParseInt(t[10], 10, 64)
+		b, _ := strconv.ParseInt(t[11], 10, 64)
+		g.Range = &[2]int64{a, b}
+	}
+	return g, nil
+}
+
+func execGram(id string, g *GramCase) {
+	path := "/v2/" + g.Repo
+	switch g.EK {
+	case "blob":
+		path += "/blobs/" + g.Arg
+	case "man":
+		path += "/manifests/" + g.Arg
+	case "up":
+		path += "/blobs/uploads/"
+	case "sess":
+		path += "/blobs/uploads/" + strconv.FormatInt(g.ID, 10)
+	case "refs":
+		path += "/referrers/" + g.Arg
+	}
+	u := &url.URL{Scheme: "https", Host: "registry.example", Path: path}
+	q := url.Values{}
+	if g.Digest != nil {
+		q.Set("digest", *g.Digest)
+	}
+	if g.MD != nil {
+		q.Set("mount", *g.MD)
+		q.Set("from", *g.MF)
+	}
+	u.RawQuery = q.Encode()
+	req := &http.Request{Method: g.M, URL: u, Header: http.Header{}, ContentLength: g.CLen}
+	if g.CType != nil {
+		req.Header.Set("Content-Type", *g.CType)
+	}
+	if g.Range != nil {
+		req.Header.Set("Range", fmt.Sprintf("bytes=%d-%d", g.Range[0], g.Range[1]))
+	}
+	verdict := fr.SpecCheck(req, []byte(g.Body), "https", "registry.example")
+	out := "allowed=1"
+	if verdict != "" {
+		out = "allowed=0"
+		run.Count("grammar:rejected")
+	} else {
+		run.Count("grammar:allowed")
+		run.Nontrivial(g.Line())
+	}
+	run.Case(id, g.Line(), out)
+}
+
+func genGram(r *common.Rand) *GramCase {
+	sp := func(s string) *string { return &s }
+	dg := sha([]byte{byte(r.Intn(4))})
+	repo := common.Pick(r, []string{"app/web", "a", "lib/x-y_z", "a.b/c__d"})
+	tag := common.Pick(r, []string{"v1", "latest", "A.b-c_9"})
+	g := &GramCase{Repo: repo, CLen: -1}
+	switch r.Intn(11) {
+	case 0:
+		g.M, g.EK, g.Arg = "GET", "blob", dg
+		if r.Chance(1, 3) {
+			g.Range = &[2]int64{int64(r.Intn(5)), int64(5 + r.Intn(5))}
+		}
+	case 1:
+		g.M, g.EK, g.Arg = common.Pick(r, []string{"HEAD", "DELETE"}), "blob", dg
+	case 2:
+		g.M, g.EK, g.Arg = common.Pick(r, []string{"GET", "HEAD", "DELETE"}), "man", common.Pick(r, []string{dg, tag})
+	case 3:
+		g.M, g.EK, g.Arg = "PUT", "man", common.Pick(r, []string{dg, tag})
+		g.CType, g.Body, g.CLen = sp(mtOCIManifest), "{}", 2
+	case 4:
+		g.M, g.EK = "POST", "up"
+	case 5:
+		g.M, g.EK = "POST", "up"
+		g.MD, g.MF = sp(dg), sp(common.Pick(r, []string{"lib/src", "other"}))
+	case 6:
+		g.M, g.EK, g.ID = "PUT", "sess", int64(1+r.Intn(9))
+		g.Digest, g.CType, g.Body, g.CLen = sp(dg), sp(mtOctet), "data", 4
+	case 7:
+		g.M, g.EK, g.Arg = "GET", "refs", dg
+	default: // a random combination
+		g.M = common.Pick(r, []string{"GET", "HEAD", "PUT", "POST", "DELETE"})
+		g.EK = common.Pick(r, []string{"blob", "man", "up", "sess", "refs"})
+		g.Arg = common.Pick(r, []string{dg, tag})
+		g.ID = int64(r.Intn(5))
+	}
+	// 0-2 mutations
+	for k := r.Intn(3); k > 0; k-- {
+		switch r.Intn(14) {
+		case 0:
+			g.M = common.Pick(r, []string{"GET", "HEAD", "PUT", "POST", "DELETE"})
+		case 1:
+			g.Arg = common.Pick(r, []string{"sha256:" + strings.Repeat("a", 63), "sha256:" + strings.Repeat("A", 64), "md5:" + strings.Repeat("a", 32),
+				"sha512:" + strings.Repeat("a", 64), "bad!tag", ".dot", strings.Repeat("t", 129), strings.Repeat("t", 128), "sha256:" + strings.Repeat("0", 64), ""})
+		case 2:
+			g.Repo = common.Pick(r, []string{"UPPER", "a//b", "-a", "a-", "a..b", "a___b", "a.-b", "x--y", "a/b/c/d"})
+		case 3:
+			g.Digest = sp(common.Pick(r, []string{dg, "sha256:zz", ""}))
+		case 4:
+			g.Digest = nil
+		case 5:
+			g.Range = &[2]int64{int64(r.Intn(6)), int64(r.Intn(6))}
+		case 6:
+			g.Body = common.Pick(r, []string{"", "x"})
+		case 7:
+			g.CType = common.Pick(r, []*string{nil, sp(""), sp(mtOctet), sp(mtOCIManifest)})
+		case 8:
+			g.CLen = int64(r.Intn(3)) - 1
+		case 9:
+			g.MD, g.MF = sp(common.Pick(r, []string{dg, "nodigest"})), sp(common.Pick(r, []string{"lib/src", "BAD", ""}))
+		case 10:
+			g.MD, g.MF = nil, nil
+		case 11:
+			g.EK = common.Pick(r, []string{"blob", "man", "up", "sess", "refs"})
+		case 12:
+			g.Range = nil
+		case 13:
+			g.ID = int64(r.Intn(100))
+		}
+	}
+	if g.EK == "up" || g.EK == "sess" {
+		g.Arg = ""
+	}
+	return g
+}
+
 // ---------- generators ----------
 
 func jsonManifest(r *common.Rand, i int, subj *fr.Desc) []byte {
@@ -1236,6 +1444,12 @@ func main() {
 				}
 				continue
 			}
+			if strings.HasPrefix(line, "A ") {
+				if g, err := ParseGram(line); err == nil {
+					execGram(id, g)
+				}
+				continue
+			}
 			if c, err := ParseCase(line); err == nil {
 				execHistory(id, c)
 			} else {
@@ -1270,6 +1484,10 @@ func main() {
 	ns := run.Scale(2500, 100000)
 	for i := 0; i < ns; i++ {
 		execSeek(run.NewID(), genSeek(r.Fork()))
+	}
+	ng := run.Scale(4000, 200000)
+	for i := 0; i < ng; i++ {
+		execGram(run.NewID(), genGram(r.Fork()))
 	}
 	_ = sort.Strings
 }
